@@ -2,6 +2,7 @@ package util
 
 import (
 	"fmt"
+	"os"
 	"hash/fnv"
 	"sort"
 	"strings"
@@ -33,7 +34,32 @@ import (
 
 type c20Op struct {
 	Op  string `json:"op"`
-	Key string `json:"key"` // hex
+	Key string `json:"key"`           // hex
+	Len int    `json:"len,omitempty"` // >0: the key is the Key bytes repeated cyclically to this length (long keys)
+}
+
+func (o c20Op) bytes() []byte {
+	var seed []byte
+	fmt.Sscanf(o.Key, "%x", &seed)
+	if o.Len <= 0 || len(seed) == 0 {
+		if seed == nil {
+			seed = []byte{}
+		}
+		return seed
+	}
+	key := make([]byte, o.Len)
+	for i := range key {
+		key[i] = seed[i%len(seed)]
+	}
+	return key
+}
+
+// c20Show prints a key, abbreviating long ones.
+func c20Show(k []byte) string {
+	if len(k) <= 24 {
+		return fmt.Sprintf("%x", k)
+	}
+	return fmt.Sprintf("%x..(%d bytes)", k[:8], len(k))
 }
 
 type c20Case struct {
@@ -93,6 +119,7 @@ type c20Run struct {
 	model map[string]bool
 	used  map[string]bool
 	univ  [][]byte
+	ul    int // the universe holds every key over the alphabet up to this length
 	hf    func([]byte) uint64
 	// classification
 	order       map[string]int // insertion sequence of current members
@@ -103,6 +130,7 @@ type c20Run struct {
 	fullReject  bool
 	invalidSeen bool
 	shortFixed  bool
+	longKey     bool
 }
 
 func (r *c20Run) valid(k []byte) bool {
@@ -141,7 +169,7 @@ func (r *c20Run) checkState(step int, after string) bool {
 			if want {
 				key = "member-lost"
 			}
-			return r.fail(step, key, "after %s: Exist(%x)=%v, model %v (members %s)", after, k, got, want, r.members())
+			return r.fail(step, key, "after %s: Exist(%s)=%v, model %v (members %s)", after, c20Show(k), got, want, r.members())
 		}
 		return true
 	}
@@ -151,7 +179,7 @@ func (r *c20Run) checkState(step int, after string) bool {
 		}
 	}
 	for k := range r.used {
-		if len(k) > r.c.Size+1 || strings.IndexFunc(k, func(c rune) bool { return c != 0 && c != 'a' && c != 'b' }) >= 0 {
+		if len(k) > r.ul || strings.IndexFunc(k, func(c rune) bool { return c != 0 && c != 'a' && c != 'b' }) >= 0 {
 			if !check([]byte(k)) {
 				return false
 			}
@@ -163,7 +191,7 @@ func (r *c20Run) checkState(step int, after string) bool {
 func (r *c20Run) members() string {
 	var m []string
 	for k := range r.model {
-		m = append(m, fmt.Sprintf("%x", k))
+		m = append(m, c20Show([]byte(k)))
 	}
 	sort.Strings(m)
 	return strings.Join(m, ",")
@@ -182,15 +210,14 @@ func (r *c20Run) fail(step int, key, format string, args ...any) bool {
 }
 
 func (r *c20Run) step(i int, op c20Op) bool {
-	var key []byte
-	fmt.Sscanf(op.Key, "%x", &key)
-	if op.Key == "" {
-		key = []byte{}
-	}
+	key := op.bytes()
 	r.used[string(key)] = true
+	if len(key) >= 65536 && r.valid(key) {
+		r.longKey = true
+	}
 	arg := append([]byte(nil), key...) // the set must copy: arg is scribbled over afterwards
 	valid := r.valid(key)
-	desc := fmt.Sprintf("%s(%x)", op.Op, key)
+	desc := fmt.Sprintf("%s(%s)", op.Op, c20Show(key))
 	switch op.Op {
 	case "add":
 		var err error
@@ -208,10 +235,10 @@ func (r *c20Run) step(i int, op c20Op) bool {
 				if r.c.Fixed && len(key) < r.c.Size {
 					r.shortFixed = true
 					// describe what the accepted key did to the set (part of the witness)
-					cons := fmt.Sprintf("Len()=%d (model %d), Exist(%x)=%v", r.set.Len(), len(r.model), key, r.set.Exist(key))
+					cons := fmt.Sprintf("Len()=%d (model %d), Exist(%s)=%v", r.set.Len(), len(r.model), c20Show(key), r.set.Exist(key))
 					for _, u := range r.univ {
 						if r.set.Exist(u) != r.model[string(u)] {
-							cons += fmt.Sprintf(", Exist(%x)=%v but model %v", u, r.set.Exist(u), r.model[string(u)])
+							cons += fmt.Sprintf(", Exist(%s)=%v but model %v", c20Show(u), r.set.Exist(u), r.model[string(u)])
 							r.rec.Class("fixed-short-key-corrupts-membership")
 							break
 						}
@@ -301,6 +328,7 @@ func c20Exec(tb ev.TB, rec *ev.Rec, c *c20Case, gen string) {
 	if ul > 4 {
 		ul = 4
 	}
+	r.ul = ul
 	r.univ = c20Universe(ul)
 	ok := r.checkState(-1, "NewHashSet")
 	for i := 0; ok && i < len(c.Ops); i++ {
@@ -321,6 +349,8 @@ func c20Exec(tb ev.TB, rec *ev.Rec, c *c20Case, gen string) {
 	add(r.fullReject, "add-at-capacity")
 	add(r.invalidSeen, "invalid-length-key")
 	add(r.shortFixed, "fixed-short-key")
+	add(c.Size >= 65535, "elem-size-around-64KiB")
+	add(r.longKey, "key-length>=65536")
 	add(!ok, "stopped-at-known-finding")
 	rec.Case(fmt.Sprintf("%+v", *c), r.reuse || r.midDelete, classes...)
 }
@@ -355,7 +385,7 @@ func c20GenKey(rt *rapid.T, c *c20Case, allowShortFixed bool, label string) []by
 }
 
 func TestC20(t *testing.T) {
-	rec := ev.New("C20", "histories of 0..80 Add/Remove/Exist on NewHashSet(cap 1..10, elemSize 1..5 (16 for the ipdict shape), fixed|variable, hash in {default murmur, constant, len, first-byte&1, fnv}); keys over {0x00,a,b} of length 0..elemSize+3; full state (Len, Full, Exist of the whole key universe) compared with a Go map after every step. non-trivial: an Add succeeds after a Remove (free-list reuse) or a member is removed from the middle of a collision chain; distinct by full case")
+	rec := ev.New("C20", "histories of 0..80 Add/Remove/Exist on NewHashSet(cap 1..10, elemSize 1..5 (16 for the ipdict shape; 1 case in 40: 65535/65536/65537/70000 with keys of length 1..elemSize+1 around the 16-bit boundary), fixed|variable, hash in {default murmur, constant, len, first-byte&1, fnv}); keys over {0x00,a,b} of length 0..elemSize+3; full state (Len, Full, Exist of the whole key universe) compared with a Go map after every step. non-trivial: an Add succeeds after a Remove (free-list reuse) or a member is removed from the middle of a collision chain; distinct by full case")
 	names := c20HashNames()
 	maxOps := ev.N(80, 120)
 	if w := replayWitness(t); w != nil {
@@ -370,17 +400,32 @@ func TestC20(t *testing.T) {
 		c := &c20Case{Cap: cap, Size: size, Fixed: fixed, Hash: hash}
 		for _, o := range ops {
 			f := strings.SplitN(o, ":", 2)
-			c.Ops = append(c.Ops, c20Op{f[0], f[1]})
+			c.Ops = append(c.Ops, c20Op{Op: f[0], Key: f[1]})
 		}
 		return c
 	}
-	for _, h := range names {
+	scenHashes := names
+	if os.Getenv("VERIF_NO_SCENARIOS") != "" { // development aid: measure what the generated part finds alone
+		scenHashes = nil
+	}
+	for _, h := range scenHashes {
 		for _, fixed := range []bool{false, true} {
 			c20Exec(t, rec, mk(3, 2, fixed, h, "add:6161", "add:6162", "add:6261", "remove:6162", "exist:6161", "add:6262", "remove:6161", "remove:6262", "add:6162", "add:6161", "add:6262"), "scenario")
 			c20Exec(t, rec, mk(1, 2, fixed, h, "add:6162", "add:6161", "remove:6162", "add:6161", "add:616263", "remove:616263"), "scenario")
 		}
 		c20Exec(t, rec, mk(2, 2, true, h, "add:6162", "remove:6162", "add:61"), "scenario")
 		c20Exec(t, rec, mk(2, 3, false, h, "add:616263", "remove:616263", "add:61", "exist:616263", "add:", "remove:61", "exist:"), "scenario")
+	}
+	// keys around the 16-bit length boundary in a variable-length set that allows them
+	for _, l := range []int{65535, 65536, 65537} {
+		if scenHashes == nil {
+			break
+		}
+		c := &c20Case{Cap: 2, Size: 70000, Fixed: false, Hash: "const"}
+		for _, o := range []string{"add", "exist", "add", "remove", "exist"} {
+			c.Ops = append(c.Ops, c20Op{Op: o, Key: "6162", Len: l})
+		}
+		c20Exec(t, rec, c, "scenario")
 	}
 	rapid.Check(t, func(rt *rapid.T) {
 		c := &c20Case{}
@@ -393,6 +438,35 @@ func TestC20(t *testing.T) {
 		c.Hash = rapid.SampledFrom(names).Draw(rt, "hash")
 		allowShort := rapid.IntRange(0, 5).Draw(rt, "allowShortFixed") == 0
 		n := rapid.IntRange(0, maxOps).Draw(rt, "nops")
+		if rapid.IntRange(0, 39).Draw(rt, "huge") == 23 {
+			// rarely: element sizes around 64 KiB (length bookkeeping wider than 16 bits), few members, short history
+			c.Size = rapid.SampledFrom([]int{65535, 65536, 65537, 70000}).Draw(rt, "hugeSize")
+			c.Cap = rapid.IntRange(1, 3).Draw(rt, "hugeCap")
+			n = rapid.IntRange(1, 14).Draw(rt, "hugeNops")
+			var hpool []c20Op
+			for i := 0; i < n; i++ {
+				lbl := fmt.Sprintf("h%d.", i)
+				var k c20Op
+				if len(hpool) > 0 && rapid.IntRange(0, 9).Draw(rt, lbl+"re") < 6 {
+					k = hpool[rapid.IntRange(0, len(hpool)-1).Draw(rt, lbl+"pi")]
+				} else {
+					k.Key = rapid.SampledFrom([]string{"61", "62", "6162", "00"}).Draw(rt, lbl+"seed")
+					k.Len = rapid.SampledFrom([]int{1, 255, 256, 65535, 65536, 65536, 65537, c.Size - 1, c.Size, c.Size, c.Size + 1}).Draw(rt, lbl+"len")
+					if c.Fixed && rapid.IntRange(0, 4).Draw(rt, lbl+"exact") > 0 {
+						k.Len = c.Size
+					}
+					if c.Fixed && k.Len < c.Size && !allowShort {
+						k.Len = c.Size
+					}
+					hpool = append(hpool, k)
+				}
+				k.Op = []string{"add", "add", "add", "remove", "remove", "exist"}[rapid.IntRange(0, 5).Draw(rt, lbl+"op")]
+				c.Ops = append(c.Ops, k)
+			}
+			rec.Sample(map[string]any{"cap": c.Cap, "size": c.Size, "fixed": c.Fixed, "hash": c.Hash, "nops": len(c.Ops), "huge": true})
+			c20Exec(rt, rec, c, "rapid-huge")
+			return
+		}
 		var pool [][]byte
 		for i := 0; i < n; i++ {
 			lbl := fmt.Sprintf("o%d.", i)
@@ -404,7 +478,7 @@ func TestC20(t *testing.T) {
 				pool = append(pool, key)
 			}
 			op := []string{"add", "add", "add", "remove", "remove", "exist"}[rapid.IntRange(0, 5).Draw(rt, lbl+"op")]
-			c.Ops = append(c.Ops, c20Op{op, fmt.Sprintf("%x", key)})
+			c.Ops = append(c.Ops, c20Op{Op: op, Key: fmt.Sprintf("%x", key)})
 		}
 		rec.Sample(map[string]any{"cap": c.Cap, "size": c.Size, "fixed": c.Fixed, "hash": c.Hash, "nops": len(c.Ops)})
 		c20Exec(rt, rec, c, "rapid")
